@@ -21,5 +21,13 @@ func SerializableOrderedMap.Decode
   requires o != nil && o.OrderedMap != nil && unlocked(o.OrderedMap.mutex) && api != nil
   modifies everything
   loop 1 invariant 0 <= bytesRead && bytesRead <= len(b) && o != nil && o.OrderedMap != nil && unlocked(o.OrderedMap.mutex) && api != nil
+  -- (property C11, round trip) every key and every value is decoded into a variable of its own: no two Decode calls are
+  -- handed the same target (a decoder that fills a target in place - a pointer, a slice - would otherwise make all
+  -- entries share the storage of the last one)
+  ghost local used BoolArr           -- targets handed to api.Decode so far (ghost)
+  ghost at entry: assume forall r Int :: !sel(used, r)
+  ghost before call API.Decode: assert !sel(used, unbox(*uint32, arg3))
+  ghost before call API.Decode: used = upd(used, unbox(*uint32, arg3), true)
+  loop 1 invariant forall r Int :: sel(used, r) ==> r < $alloc
   ensures err == nil ==> 0 <= bytesRead && bytesRead <= len(b)
 @*/
